@@ -86,11 +86,11 @@ func specDigestInput(f []byte, p *specPE) ([]byte, bool) {
 		return nil, false
 	}
 	var out []byte
-	out = append(out, f[:p.Cksum]...)           // step 3
-	out = append(out, f[p.Cksum+4:p.DD4]...)    // step 5
+	out = append(out, f[:p.Cksum]...)                // step 3
+	out = append(out, f[p.Cksum+4:p.DD4]...)         // step 5
 	out = append(out, f[p.DD4+8:p.SizeOfHeaders]...) // step 7
-	sum := p.SizeOfHeaders                      // step 8
-	for _, s := range p.sortedSecs() {          // steps 9-13
+	sum := p.SizeOfHeaders                           // step 8
+	for _, s := range p.sortedSecs() {               // steps 9-13
 		if s.Ptr+s.Size > len(f) {
 			return nil, false
 		}
